@@ -33,8 +33,11 @@ fn check_frame_in(ctx: &mut Ctx, f: &[u8], suffix: &[u8], supported: &[u16], sha
         Some((mf.message_number(), mf.get_message()))
     });
     let (num, m) = match r {
-        Err(_) => {
-            ctx.count("decode_panics_left_to_C02");
+        Err(p) => {
+            // the statement allows four outcomes for a well-formed frame; a panic is none of them
+            // (also C02's business; reported here since seeded change C14-R11, which C14 had left to C02)
+            ctx.count("decode_panics");
+            ctx.panic_violation("C14.outcome_is_one_of_four", &p, &format!("decoding a reference-built frame ({})", shape), replay());
             return;
         }
         Ok(None) => {
